@@ -77,6 +77,17 @@ def neutralise(doc, feature: str):
                         (lifted if x["k"] == "tbl" else keep).append(x)
                     c["blocks"] = keep
             return [b] + lifted
+    elif feature == "table.simple":
+        def bfn(b):
+            if b["k"] != "tbl":
+                return b
+            out = []
+            for row in b["rows"]:
+                for c in row:
+                    out.extend(c["blocks"])
+            return out
+    elif feature == "unit.multi":
+        doc["units"] = [{"name": doc["units"][0].get("name"), "blocks": [b for u in doc["units"] for b in u["blocks"]], "notes": doc["units"][0].get("notes")}]
     elif feature == "table.multi-para-cell":
         def bfn(b):
             if b["k"] == "tbl":
